@@ -452,7 +452,7 @@ pub fn minimise<S: Scenario>(mut case: S::Case, prop: &'static str, v: &Violatio
     let mut execs = 0u64;
     let t0 = Instant::now();
     'outer: loop {
-        if execs > 20_000 || t0.elapsed().as_secs() > 60 {
+        if execs > 20_000 || t0.elapsed().as_secs() > 15 {
             break;
         }
         for cand in S::shrink(&case) {
@@ -463,7 +463,7 @@ pub fn minimise<S: Scenario>(mut case: S::Case, prop: &'static str, v: &Violatio
                 best_v = nv;
                 continue 'outer;
             }
-            if execs > 20_000 || t0.elapsed().as_secs() > 60 {
+            if execs > 20_000 || t0.elapsed().as_secs() > 15 {
                 break 'outer;
             }
         }
